@@ -65,6 +65,6 @@ KERNELS = [
       [("converged", "bool"), ("step_ok", "bool")], "c05", ["C05"]),
     K("src_done_status", "src/solver.cpp",
       r"bool solver_t::done\(.*?state\.status\((.*?)\);",
-      [(r"solver_status::converged", "1"), (r"solver_status::failed", "2")],
-      [("converged", "bool")], "c05", ["C05"]),
+      [(r"solver_status::converged", "1"), (r"solver_status::failed", "2"), (r"state\.valid\(\)", "state_valid")],
+      [("converged", "bool"), ("state_valid", "bool")], "c05", ["C05"]),
 ]
